@@ -22,7 +22,9 @@ REQUIRED_THEOREMS = ["reach_run", "run_terminates", "path_valid", "dijkstra_opti
                      "vertexSet_src_empty", "bridge_toBorder", "bridge_borderPick", "bridge_sinkWeight", "weight_modes_agree",
                      "weight_mode_table", "bridge_argument_tables", "targetsOf_single", "bridge_shortestPath",
                      "bridge_vertexSet_full", "source_shortest_path_optimal", "shortest_path_targets_independent",
-                     "source_vertex_set_nearest", "vertex_set_start_in_set", "source_export_segments_are_edges"]
+                     "source_vertex_set_nearest", "vertex_set_start_in_set", "source_export_segments_are_edges",
+                     # round 5: the connectivity dict of dicts as written, adjacency of the point-to-point query
+                     "bridge_connBuild", "bridge_vertexSet_conn", "source_vertex_set_nearest_conn", "source_shortest_path_all_modes"]
 
 # every function / method defined in the files the property is anchored in (mouette/processing/paths.py,
 # mouette/utils/priority_queue.py): translated = a Generated definition is produced from that body on every run and a bridge
@@ -46,8 +48,12 @@ TRUSTED = [
     "model Mouette/Model/Dijkstra.lean + PathMesh.lean: both Dijkstra loops, both back-tracking loops, build_path, the single-target "
     "shortcut, the border glue and the weight / argument tables are re-translated from the working tree on every run "
     "(Generated/C09Loop.lean, C09Glue.lean) and proved equal to the model (Props/C09Bridge, C09Source); hand-modelled and tied by the "
-    "correspondence of this run only: the iteration order of the `connectivity` dict of dicts (adjOf / sinkAdj), set(targets), the "
+    "correspondence of this run only: set(targets), vertex_to_vertices / edge_id (C01-C03), heapq (abstract pop contract), the "
     "coordinate lookup mesh.vertices[i] of build_path, numpy/Attribute indexing of custom weights",
+    "round 5: the construction of the `connectivity` dict of dicts is translated too (connBuild) and proved equal to sinkAdj (adjOf edges) "
+    "under the ONLY iteration-order assumption that a Python dict iterates in insertion order and an assignment to an existing key keeps "
+    "its position (Model/ConnDict.lean), for meshes whose edges are pairwise different unordered pairs without loops and pairwise "
+    "different targets (duplicated targets: correspondence only)",
     "heapq abstracted to 'pop returns some pending item of minimum priority' (theorems hold for every such pop)",
     "the graph handed to the model is the implementation's own mesh.edges (edge extraction itself is C01-C03); the oracle "
     "re-derives the edges independently from faces/cells",
